@@ -26,6 +26,7 @@ ASSUMPTIONS = [
 REQUIRED_COUNTERS = ["cmp_integrate", "cmp_x", "cmp_xx", "cmp_xn", "additivity", "sign_rule", "truncated_cmp",
                      "closed_form_calls", "library_quad_calls"]
 MIN_NONTRIVIAL = {"quick": 30, "thorough": 200}
+THOROUGH_ROUNDS = 10      # the thorough tier runs the generators this many times (different seeds)
 RTOL = 1e-7
 QUAD_TOL = 2e-6     # per library call to scipy.integrate.quad: its default epsabs=epsrel=1.49e-8 is only an estimate and is
                     # exceeded over the density kink at 0 and for narrow bumps (observed up to 3e-7 on the unchanged tree)
